@@ -190,76 +190,101 @@ func rfRules(c *Ctx, r *Report, R1, R2, R3, R4, R5 string) {
 			return
 		}
 		nst++
-		form := fe.eval(st.Val)
-		set := m.subIn[st.Block()]
-		k := fmt.Sprintf("%s|%s subtype%s", key, fld, set)
-		bad := ""
-		for _, sv := range enumValues(set) {
-			switch {
-			case sv == debit && fld == "Price":
-				// consumed * unitCost
-				okf := false
-				for mono, cf := range form {
-					if cf == 1 && len(form) == 1 {
-						parts := strings.Split(mono, monoSep)
-						// the monomial must be consumedUnits atom times the unit-cost monomials
-						rest := poly{}
-						for _, pa := range parts {
-							if strings.HasPrefix(pa, "mem:local:"+m.req.Comment+".") && strings.HasSuffix(pa, ".ConsumedUnits") {
-								continue
-							}
-							if len(rest) == 0 {
-								rest = atomPoly(pa)
-							} else {
-								rest = polyMul(rest, atomPoly(pa))
+		alts := fe.evalAlts(st.Val)
+		for _, alt := range alts {
+			form := alt.form
+			set := m.subIn[st.Block()]
+			if len(alt.edges) > 0 {
+				// the value was assigned on a branch and stored after the join: the
+				// sub-types possible on that branch
+				if _, ok := m.subIn[alt.edges[0][0]]; ok {
+					set = enumOnEdge(m.subIn, m.isSubType, alt.edges[0][0], alt.edges[0][1])
+					// nested merges refine further
+					for _, e := range alt.edges[1:] {
+						inner := enumOnEdge(m.subIn, m.isSubType, e[0], e[1])
+						meet := enumSet{vals: map[int64]bool{}, others: set.others && inner.others}
+						for v := range set.vals {
+							if inner.vals[v] {
+								meet.vals[v] = true
 							}
 						}
-						if polyEqual(rest, ucForm) && len(parts) == len(strings.Split(firstMono(ucForm), monoSep))+1 {
-							okf = true
+						set = meet
+					}
+				}
+			}
+			zeroEdge := func() bool {
+				if len(alt.edges) == 0 && alt.from == nil {
+					return zeroCostEdge(fe, ucForm, st.Block())
+				}
+				if alt.from != nil && relOnEdge(fe, ucForm, poly{}, alt.from, alt.at)["=="] {
+					return true
+				}
+				for _, e := range alt.edges {
+					if relOnEdge(fe, ucForm, poly{}, e[0], e[1])["=="] {
+						return true
+					}
+				}
+				return false
+			}
+			for _, sv := range enumValues(set) {
+				k := fmt.Sprintf("%s|%s subtype=%s", key, fld, enumName(sv))
+				bad := ""
+				switch {
+				case sv == debit && fld == "Price":
+					// consumed * unitCost
+					okf := false
+					for mono, cf := range form {
+						if cf == 1 && len(form) == 1 {
+							parts := strings.Split(mono, monoSep)
+							// the monomial must be consumedUnits atom times the unit-cost monomials
+							rest := poly{}
+							for _, pa := range parts {
+								if strings.HasPrefix(pa, "mem:local:"+m.req.Comment+".") && strings.HasSuffix(pa, ".ConsumedUnits") {
+									continue
+								}
+								if len(rest) == 0 {
+									rest = atomPoly(pa)
+								} else {
+									rest = polyMul(rest, atomPoly(pa))
+								}
+							}
+							if polyEqual(rest, ucForm) && len(parts) == len(strings.Split(firstMono(ucForm), monoSep))+1 {
+								okf = true
+							}
 						}
 					}
-				}
-				if !okf {
-					bad = "debit mode: price must be consumed units x unit cost, found " + form.String()
-				}
-			case sv == debit && fld == "AllowedUnits":
-				if k0, ok := form.isConst(); !ok || k0 != 0 {
-					bad = "debit mode grants no units, found " + form.String()
-				}
-			case sv == reserve && fld == "AllowedUnits":
-				quot := atomPoly("(" + mq + " / " + ucForm.String() + ")")
-				k0, isC := form.isConst()
-				if !(polyEqual(form, quot) || (isC && k0 == 0 && zeroCostEdge(fe, ucForm, st.Block()))) {
-					bad = "reserve mode: allowed units must be monetary quota div unit cost, found " + form.String()
-				}
-				if polyEqual(form, quot) && !reqAtomString(mq, m.req.Comment, ".MonetaryQuota") {
-					bad = "reserve mode: the dividend is not the request's Monetary-Quota: " + mq
-				}
-			case sv == reserve && fld == "Price":
-				quot := atomPoly("(" + mq + " / " + ucForm.String() + ")")
-				want := polyMul(quot, ucForm)
-				for _, alt := range fe.evalAlts(st.Val) {
-					k0, isC := alt.form.isConst()
-					zeroEdge := false
-					if isC && k0 == 0 {
-						if alt.from != nil {
-							zeroEdge = relOnEdge(fe, ucForm, poly{}, alt.from, alt.at)["=="]
-						} else {
-							zeroEdge = zeroCostEdge(fe, ucForm, st.Block())
-						}
+					if !okf {
+						bad = "debit mode: price must be consumed units x unit cost, found " + form.String()
 					}
-					if !(polyEqual(alt.form, want) || zeroEdge) {
-						bad = "reserve mode: price must be allowed units x unit cost (0 only when the unit cost is 0), found " + alt.form.String()
+				case sv == debit && fld == "AllowedUnits":
+					if k0, ok := form.isConst(); !ok || k0 != 0 {
+						bad = "debit mode grants no units, found " + form.String()
+					}
+				case sv == reserve && fld == "AllowedUnits":
+					quot := atomPoly("(" + mq + " / " + ucForm.String() + ")")
+					k0, isC := form.isConst()
+					if !(polyEqual(form, quot) || (isC && k0 == 0 && zeroEdge())) {
+						bad = "reserve mode: allowed units must be monetary quota div unit cost, found " + form.String()
+					}
+					if polyEqual(form, quot) && !reqAtomString(mq, m.req.Comment, ".MonetaryQuota") {
+						bad = "reserve mode: the dividend is not the request's Monetary-Quota: " + mq
+					}
+				case sv == reserve && fld == "Price":
+					quot := atomPoly("(" + mq + " / " + ucForm.String() + ")")
+					want := polyMul(quot, ucForm)
+					k0, isC := form.isConst()
+					if !(polyEqual(form, want) || (isC && k0 == 0 && zeroEdge())) {
+						bad = "reserve mode: price must be allowed units x unit cost (0 only when the unit cost is 0), found " + form.String()
+					}
+				default:
+					if k0, ok := form.isConst(); !ok || k0 != 0 {
+						bad = "unknown sub-type must be priced 0, found " + form.String()
 					}
 				}
-			default:
-				if k0, ok := form.isConst(); !ok || k0 != 0 {
-					bad = "unknown sub-type must be priced 0, found " + form.String()
-				}
+				r.check(bad == "", R2, k, posOf(c, st), fld+" = "+form.String(), bad)
 			}
 		}
 		_ = reqAtom
-		r.check(bad == "", R2, k, posOf(c, st), fld+" = "+form.String(), bad)
 	})
 	r.count("price_and_units_stores", nst)
 
